@@ -3,6 +3,7 @@ use vstd::arithmetic::power2::*;
 use vstd::arithmetic::mul::*;
 use vstd::arithmetic::div_mod::*;
 use vstd::std_specs::bits::*;
+use vstd::bits::*;
 verus! {
 
 pub open spec const B: int = 0x1_0000_0000_0000_0000;
@@ -118,6 +119,143 @@ pub assume_specification<T: Clone> [<[T]>::fill] (s: &mut [T], value: T)
 pub assume_specification [u128::overflowing_sub] (a: u128, b: u128) -> (r: (u128, bool))
     ensures r.1 == (a < b), r.0 as int == (if a < b { a as int - b as int + B * B } else { a as int - b as int });
 
+
+
+// (hi << s) | (lo >> (64-s))  for u64 words, 0 < s < 64:
+//   == (hi mod 2^(64-s)) * 2^s + lo / 2^(64-s)
+pub proof fn lemma_shl_or_shr_u64(hi: u64, lo: u64, s: u32)
+    requires 0 < s < 64
+    ensures
+        ((hi << s) | (lo >> (64 - s))) as int
+            == ((hi as int) % (pow2((64 - s) as nat) as int)) * pow2(s as nat) + (lo as int) / (pow2((64 - s) as nat) as int),
+        (lo as int) / (pow2((64 - s) as nat) as int) < pow2(s as nat),
+{
+    let c: u32 = (64 - s) as u32;
+    let a = hi << s;
+    let b = lo >> c;
+    // disjoint bits: or == add
+    assert(a | b == a + b) by(bit_vector) requires a == hi << s, b == lo >> c, c == 64 - s, 0 < s < 64;
+    assert(a as int + b as int <= u64::MAX as int) by {
+        assert(a | b <= 0xffff_ffff_ffff_ffffu64) by(bit_vector);
+    }
+    // b == lo / 2^c
+    lemma_u64_shr_is_div(lo, c as u64);
+    // a == (hi & mask(c)) << s == (hi % 2^c) * 2^s
+    let m: u64 = hi & (((1u64 << c) - 1) as u64);
+    assert(hi << s == m << s) by(bit_vector) requires m == hi & (((1u64 << c) - 1) as u64), c == 64 - s, 0 < s < 64;
+    assert(m < (1u64 << c)) by(bit_vector) requires m == hi & (((1u64 << c) - 1) as u64), 0 < c < 64;
+    lemma_u64_pow2_no_overflow(c as nat);
+    lemma_u64_shl_is_mul(1, c as u64);
+    assert((1u64 << c) as int == pow2(c as nat));
+    lemma_u64_low_bits_mask_is_mod(hi, c as nat);
+    assert(low_bits_mask(c as nat) == pow2(c as nat) - 1);
+    assert(m as int == (hi as int) % (pow2(c as nat) as int));
+    // m * 2^s < 2^64
+    lemma_pow2_adds(c as nat, s as nat);
+    lemma2_to64();
+    lemma_pow2_pos(s as nat);
+    assert((m as int) * pow2(s as nat) < pow2(64)) by(nonlinear_arith)
+        requires (m as int) < pow2(c as nat), pow2(c as nat) * pow2(s as nat) == pow2(64), pow2(s as nat) > 0;
+    lemma_u64_shl_is_mul(m, s as u64);
+    assert((m << s) as int == (m as int) * pow2(s as nat));
+    // bound on b
+    lemma_pow2_pos(c as nat);
+    assert((lo as int) / (pow2(c as nat) as int) < pow2(s as nat)) by {
+        lemma_div_by_multiple_is_strongly_ordered(lo as int, pow2(64) as int, pow2(s as nat) as int, pow2(c as nat) as int);
+        lemma_div_multiples_vanish(pow2(s as nat) as int, pow2(c as nat) as int);
+        lemma_mul_is_commutative(pow2(s as nat) as int, pow2(c as nat) as int);
+    }
+}
+
+
+// u128: a << s == a * 2^s when nothing is shifted out
+pub proof fn lemma_u128_shl_is_mul(a: u128, s: u32)
+    requires s < 128, (a as int) * pow2(s as nat) < 0x1_0000_0000_0000_0000_0000_0000_0000_0000
+    ensures (a << s) as int == (a as int) * pow2(s as nat)
+    decreases s
+{
+    if s == 0 {
+        assert(a << 0u32 == a) by(bit_vector);
+        lemma2_to64();
+        assert((a as int) * 1 == a as int) by(nonlinear_arith);
+    } else {
+        let s1 = (s - 1) as u32;
+        lemma_pow2_unfold(s as nat);
+        lemma_pow2_pos(s1 as nat);
+        assert((a as int) * pow2(s1 as nat) * 2 == (a as int) * pow2(s as nat)) by(nonlinear_arith) requires pow2(s as nat) == 2 * pow2(s1 as nat);
+        assert((a as int) * pow2(s1 as nat) <= (a as int) * pow2(s as nat)) by(nonlinear_arith) requires pow2(s as nat) == 2 * pow2(s1 as nat), a as int >= 0, pow2(s1 as nat) > 0;
+        lemma_u128_shl_is_mul(a, s1);
+        let x = a << s1;
+        assert(a << s == (a << s1) << 1u32) by(bit_vector) requires s1 == s - 1, 0 < s < 128;
+        assert(x << 1u32 == x * 2) by(bit_vector) requires x < 0x8000_0000_0000_0000_0000_0000_0000_0000u128;
+    }
+}
+
+// the three leading limbs of ((x3,x2,x1,x0) << s) as integers
+pub proof fn lemma_fetch4(x3: int, x2: int, x1: int, x0: int, c: int, s2: int, hi: int, lo: int)
+    requires
+        c >= 1, s2 >= 1, B == c * s2, 0 <= x1, 0 <= x0,
+        hi == (x3 * B + x2) * s2 + x1 / c,
+        lo == (x1 % c) * s2 + x0 / c,
+    ensures
+        ({
+            let t = hi * B + lo;
+            let x4 = ((x3 * B + x2) * B + x1) * B + x0;
+            t * B <= x4 * s2 && x4 * s2 <= t * B + B - s2
+        })
+{
+    lemma_fundamental_div_mod(x1, c);
+    lemma_fundamental_div_mod(x0, c);
+    lemma_mod_bound(x0, c);
+    let t = hi * B + lo;
+    let x4 = ((x3 * B + x2) * B + x1) * B + x0;
+    let q1 = x1 / c; let r1 = x1 % c; let q0 = x0 / c; let r0 = x0 % c;
+    assert(x4 * s2 - t * B == r0 * s2) by(nonlinear_arith)
+        requires x4 == ((x3 * B + x2) * B + x1) * B + x0, t == hi * B + lo,
+                 hi == (x3 * B + x2) * s2 + q1, lo == r1 * s2 + q0, x1 == c * q1 + r1, x0 == c * q0 + r0, B == c * s2;
+    assert(0 <= r0 * s2 <= (c - 1) * s2) by(nonlinear_arith) requires 0 <= r0 <= c - 1, s2 >= 1;
+    assert((c - 1) * s2 == B - s2) by(nonlinear_arith) requires B == c * s2;
+}
+
+pub proof fn lemma_fetch3(y2: int, y1: int, y0: int, c: int, s2: int, dv: int)
+    requires c >= 1, s2 >= 1, B == c * s2, 0 <= y0, dv == (y2 * B + y1) * s2 + y0 / c,
+    ensures ({ let y3 = (y2 * B + y1) * B + y0; dv * B <= y3 * s2 && y3 * s2 <= dv * B + B - s2 })
+{
+    lemma_fundamental_div_mod(y0, c);
+    lemma_mod_bound(y0, c);
+    let q0 = y0 / c; let r0 = y0 % c;
+    let y3 = (y2 * B + y1) * B + y0;
+    assert(y3 * s2 - dv * B == r0 * s2) by(nonlinear_arith)
+        requires y3 == (y2 * B + y1) * B + y0, dv == (y2 * B + y1) * s2 + q0, y0 == c * q0 + r0, B == c * s2;
+    assert(0 <= r0 * s2 <= (c - 1) * s2) by(nonlinear_arith) requires 0 <= r0 <= c - 1, s2 >= 1;
+    assert((c - 1) * s2 == B - s2) by(nonlinear_arith) requires B == c * s2;
+}
+
+// A (to be discharged from vstd's axiom or by a full-domain Kani obligation): leading_zeros of a non-zero word
+#[verifier::external_body]
+pub proof fn lemma_lz_facts(x: u64)
+    requires x >= 1
+    ensures
+        u64_leading_zeros(x) < 64,
+        (x as int) * pow2(u64_leading_zeros(x) as nat) < B,
+        (x as int) * pow2(u64_leading_zeros(x) as nat) >= B / 2,
+{}
+
+// (a << s) | b  ==  a*2^s + b   for a 128-bit a with no bits shifted out and b < 2^s
+pub proof fn lemma_u128_shl_or(a: u128, b: u64, s: u32)
+    requires 0 < s < 64, (a as int) * pow2(s as nat) < 0x1_0000_0000_0000_0000_0000_0000_0000_0000, (b as int) < pow2(s as nat)
+    ensures ((a << s) | (b as u128)) as int == (a as int) * pow2(s as nat) + b as int
+{
+    lemma_u128_shl_is_mul(a, s);
+    lemma_u64_pow2_no_overflow(s as nat);
+    lemma_u64_shl_is_mul(1, s as u64);
+    assert((1u64 << s) as int == pow2(s as nat));
+    assert(b < (1u64 << s));
+    let x = a << s;
+    assert((x | (b as u128)) == x + (b as u128)) by(bit_vector)
+        requires x == a << s, b < (1u64 << s), 0 < s < 64, x <= 0xffff_ffff_ffff_ffff_ffff_ffff_ffff_ffffu128 - 0xffff_ffff_ffff_ffffu128 || true;
+}
+
 // Knuth lemmas (proved in kn_math.rs)
 #[verifier::external_body]
 pub proof fn lemma_knuth_estimate(w: int, dd: int, s2: int, e: int, t: int, d: int, q: int)
@@ -166,7 +304,7 @@ pub proof fn lemma_window_bounds(w: int, x4: int, wlow: int, e3: int, s2: int, t
 }
 
 // ---------- the real function (src/algorithms/div/knuth.rs), N7/N9 applied ----------
-#[verifier::rlimit(200)]
+#[verifier::rlimit(2000)]
 pub fn div_nxm(numerator: &mut [u64], divisor: &mut [u64])
     requires
         old(divisor).len() >= 3,
@@ -194,11 +332,30 @@ pub fn div_nxm(numerator: &mut [u64], divisor: &mut [u64])
     let (d, shift) = {
         let d = u128::join(divisor[n - 1], divisor[n - 2]);
         let shift = d.high().leading_zeros();
-        proof { assume(shift < 64); }
+        proof {
+            // d.high() == divisor[n-1]
+            lemma_fundamental_div_mod_converse(d as int, B, divisor@[n as int - 1] as int, divisor@[n as int - 2] as int);
+            assert(B * (divisor@[n as int - 1] as int) == divisor@[n as int - 1] as int * B) by(nonlinear_arith);
+            assert((d as int) / B == divisor@[n as int - 1] as int);
+            lemma_lz_facts(divisor@[n as int - 1]);
+            assert(shift == u64_leading_zeros(divisor@[n as int - 1]));
+        }
         (
             if shift == 0 {
                 d
             } else {
+                proof {
+                    let y2 = divisor@[n as int - 1] as int; let y1 = divisor@[n as int - 2] as int;
+                    let c = pow2((64 - shift) as nat) as int; let s2 = pow2(shift as nat) as int;
+                    lemma_pow2_adds((64 - shift) as nat, shift as nat); lemma2_to64(); lemma_pow2_pos((64 - shift) as nat); lemma_pow2_pos(shift as nat);
+                    assert(B == c * s2);
+                    assert(y2 < c) by(nonlinear_arith) requires y2 * s2 < B, B == c * s2, s2 >= 1, c >= 1;
+                    assert((y2 * B + y1) * s2 < B * B) by(nonlinear_arith) requires y2 + 1 <= c, 0 <= y1 < B, B == c * s2, s2 >= 1, y2 >= 0;
+                    assert(B * B == 0x1_0000_0000_0000_0000_0000_0000_0000_0000) by(compute_only);
+                    lemma_shl_or_shr_u64(0, divisor@[n as int - 3], shift);     // bound: y0/c < 2^s
+                    lemma_u64_shr_is_div(divisor@[n as int - 3], (64 - shift) as u64);
+                    lemma_u128_shl_or(d, divisor@[n as int - 3] >> ((64 - shift) as u32), shift);
+                }
                 (d << shift) | u128::from(divisor[n - 3] >> (64 - shift))
             },
             shift,
@@ -223,14 +380,39 @@ pub fn div_nxm(numerator: &mut [u64], divisor: &mut [u64])
         if shift == 0 {
             assert(pow2(0) == 1) by { lemma2_to64(); }
             assert(d as int == y2 * B + y1);
-            // TODO(probe): shift == 0 ==> top limb >= 2^63 (leading_zeros axiom)
-            assume(y2 >= B / 2);
+            assert(y2 * 1 == y2) by(nonlinear_arith);
+            assert(y2 >= B / 2);
             assert(d as int >= B * B / 2) by(nonlinear_arith) requires d as int == y2 * B + y1, y2 >= B / 2, y1 >= 0, B == 0x1_0000_0000_0000_0000;
             assert((d as int) * e <= dd * s2 && dd * s2 < (d as int + 1) * e) by(nonlinear_arith)
                 requires dd == dlow + e * (y1 + B * y2), d as int == y2 * B + y1, 0 <= dlow < e, s2 == 1;
         } else {
-            // TODO(probe): bit-level facts about the shifted fetch of the divisor
-            assume(d as int >= B * B / 2 && (d as int) * e <= dd * s2 && dd * s2 < (d as int + 1) * e);
+            // bit-level facts about the shifted fetch of the divisor
+            let y0 = div0[ni - 3] as int;
+            let c = pow2((64 - shift) as nat) as int;
+            lemma_pow2_adds((64 - shift) as nat, shift as nat); lemma2_to64(); lemma_pow2_pos((64 - shift) as nat);
+            assert(B == c * s2);
+            lemma_u64_shr_is_div(div0[ni - 3], (64 - shift) as u64);
+            assert(d as int == (y2 * B + y1) * s2 + y0 / c);
+            lemma_fetch3(y2, y1, y0, c, s2, d as int);
+            // D == y3 * bp(n-3) + dlow3
+            lemma_lvr_split(div0, 0, ni - 3, ni);
+            lemma_lvr_bound(div0, 0, ni - 3);
+            assert(lvr(div0, ni - 3, ni) == y0 + B * (y1 + B * y2)) by {
+                assert(lvr(div0, ni, ni) == 0); assert(B * 0 == 0);
+                assert(lvr(div0, ni - 1, ni) == y2);
+                assert(lvr(div0, ni - 2, ni) == y1 + B * y2);
+            }
+            let y3 = (y2 * B + y1) * B + y0;
+            assert(y0 + B * (y1 + B * y2) == y3) by(nonlinear_arith) requires y3 == (y2 * B + y1) * B + y0;
+            lemma_bp_pos(ni - 3);
+            assert(e == B * bp(ni - 3));
+            assert(dd == y3 * bp(ni - 3) + lvr(div0, 0, ni - 3)) by(nonlinear_arith)
+                requires dd == lvr(div0, 0, ni - 3) + bp(ni - 3) * lvr(div0, ni - 3, ni), lvr(div0, ni - 3, ni) == y3;
+            lemma_window_bounds(dd, y3, lvr(div0, 0, ni - 3), bp(ni - 3), s2, d as int);
+            assert((d as int) * e <= dd * s2 && dd * s2 < (d as int + 1) * e);
+            lemma_div_pos_is_pos(y0, c);
+            assert(d as int >= B * B / 2) by(nonlinear_arith)
+                requires d as int == (y2 * B + y1) * s2 + y0 / c, y2 * s2 >= B / 2, y1 >= 0, y0 / c >= 0, s2 >= 1, B == 0x1_0000_0000_0000_0000;
         }
     }
     let v = reciprocal_2(d);
@@ -259,6 +441,7 @@ pub fn div_nxm(numerator: &mut [u64], divisor: &mut [u64])
             d as int >= B * B / 2, (d as int) * e <= dd * s2, dd * s2 < (d as int + 1) * e,
             is_reciprocal_2(d, v),
             shift == 0 ==> d as int == div0[ni - 1] as int * B + div0[ni - 2] as int,
+            div0[ni - 1] >= 1, shift == u64_leading_zeros(div0[ni - 1]),
             0 <= it.index@ <= mi + 1,
             it.index@ == 0 ==> q_high == 0 && qacc == 0,
             // remainder region and quotient digits
@@ -314,6 +497,33 @@ pub fn div_nxm(numerator: &mut [u64], divisor: &mut [u64])
             if shift == 0 {
                 (n21, n0)
             } else {
+                proof {
+                    let y2 = div0[ni - 1] as int;
+                    let c = pow2((64 - shift) as nat) as int;
+                    lemma_pow2_adds((64 - shift) as nat, shift as nat); lemma2_to64(); lemma_pow2_pos((64 - shift) as nat);
+                    assert(B == c * s2);
+                    // n2v <= y2 < c : otherwise W >= c*bp(n) > D*B
+                    lemma_lz_facts(div0[ni - 1]);
+                    assert(shift == u64_leading_zeros(div0[ni - 1]));
+                    assert(y2 < c) by(nonlinear_arith) requires y2 * s2 < B, B == c * s2, s2 >= 1, c >= 1;
+                    lemma_lvr_split(div0, 0, ni - 1, ni);
+                    lemma_lvr_bound(div0, 0, ni - 1);
+                    assert(lvr(div0, ni - 1, ni) == y2) by { assert(lvr(div0, ni, ni) == 0); assert(B * 0 == 0); }
+                    assert(bp(ni) == B * bp(ni - 1));
+                    lemma_bp_pos(ni - 1);
+                    assert(dd * B < (y2 + 1) * bp(ni)) by(nonlinear_arith)
+                        requires dd == lvr(div0, 0, ni - 1) + bp(ni - 1) * y2, lvr(div0, 0, ni - 1) < bp(ni - 1), bp(ni) == B * bp(ni - 1);
+                    assert(n2v < c) by(nonlinear_arith)
+                        requires w == wl + n2v * bp(ni), wl >= 0, w < dd * B, dd * B < (y2 + 1) * bp(ni), y2 + 1 <= c, bp(ni) >= 1, n2v >= 0
+                        ;
+                    assert((n2v * B + numerator@[ji + ni - 1] as int) * s2 < B * B) by(nonlinear_arith)
+                        requires n2v + 1 <= c, 0 <= numerator@[ji + ni - 1] as int, (numerator@[ji + ni - 1] as int) < B, B == c * s2, s2 >= 1, n2v >= 0;
+                    assert(B * B == 0x1_0000_0000_0000_0000_0000_0000_0000_0000) by(compute_only);
+                    lemma_shl_or_shr_u64(0, n0, shift);     // bound: n0/c < 2^s
+                    lemma_u64_shr_is_div(n0, (64 - shift) as u64);
+                    lemma_u128_shl_or(n21, n0 >> ((64 - shift) as u32), shift);
+                    lemma_shl_or_shr_u64(n0, numerator@[ji + ni - 3], shift);
+                }
                 (
                     (n21 << shift) | u128::from(n0 >> (64 - shift)),
                     (n0 << shift) | (numerator[j + n - 3] >> (64 - shift)),
@@ -341,8 +551,30 @@ pub fn div_nxm(numerator: &mut [u64], divisor: &mut [u64])
                 assert(t * e <= w * s2 && w * s2 < (t + 1) * e) by(nonlinear_arith)
                     requires w == wlow2 + e * t, 0 <= wlow2 < e, s2 == 1;
             } else {
-                // TODO(probe): bit-level facts about the shifted fetch of the window
-                assume(t * e <= w * s2 && w * s2 < (t + 1) * e);
+                // bit-level facts about the shifted fetch of the window
+                let x0 = num0[ji + ni - 3] as int;
+                let c = pow2((64 - shift) as nat) as int;
+                lemma_pow2_adds((64 - shift) as nat, shift as nat); lemma2_to64(); lemma_pow2_pos((64 - shift) as nat);
+                assert(B == c * s2);
+                assert(n21 as int == (n2v * B + x2) * s2 + x1 / c);
+                assert(n0 as int == (x1 % c) * s2 + x0 / c);
+                lemma_fetch4(n2v, x2, x1, x0, c, s2, n21 as int, n0 as int);
+                // W == x4*bp(n-3) + wlow3
+                lemma_lvr_split(num0, ji, ji + ni - 3, ji + ni);
+                lemma_lvr_bound(num0, ji, ji + ni - 3);
+                assert(lvr(num0, ji + ni - 3, ji + ni) == x0 + B * (x1 + B * x2)) by {
+                    assert(lvr(num0, ji + ni, ji + ni) == 0); assert(B * 0 == 0);
+                    assert(lvr(num0, ji + ni - 1, ji + ni) == x2);
+                    assert(lvr(num0, ji + ni - 2, ji + ni) == x1 + B * x2);
+                }
+                let x4 = ((n2v * B + x2) * B + x1) * B + x0;
+                lemma_bp_pos(ni - 3);
+                assert(e == B * bp(ni - 3));
+                assert(w == x4 * bp(ni - 3) + lvr(num0, ji, ji + ni - 3)) by(nonlinear_arith)
+                    requires w == wl + n2v * bp(ni), wl == lvr(num0, ji, ji + ni - 3) + bp(ni - 3) * (x0 + B * (x1 + B * x2)),
+                             bp(ni) == B * (B * (B * bp(ni - 3))), x4 == ((n2v * B + x2) * B + x1) * B + x0;
+                lemma_window_bounds(w, x4, lvr(num0, ji, ji + ni - 3), bp(ni - 3), s2, t);
+                assert(t * e <= w * s2 && w * s2 < (t + 1) * e);
             }
         }
 
